@@ -105,6 +105,9 @@ def gen_target(rnd, t):
         return rnd.choice(["//" + ABS + "/outer/secret5.txt", "/" + ABS + "/outer/secret5.txt", "///" + ABS + "/outer/secret5.txt", "/.//" + ABS + "/outer/secret5.txt"])
     if t.has("outer/root/latest") and rnd.random() < 0.5:
         return rnd.choice(["/latest", "/latest", "/rel/current", "/latest?x=1"])
+    if rnd.random() < 0.05:
+        # siblings whose NAME extends the root's name (outer/rootx, outer/root.html): a path that lost its leading separator names them
+        return rnd.choice(["//", "///", "//", "", "/./", "/.//", "//./"]) + rnd.choice(["x/leak.txt", ".html", "x/leak.txt?q=1#f", ".html#x", "x", "x/"])
     dotted = [x for x in inroot if ".." in x]
     if dotted and rnd.random() < 0.4:
         # a harmless name with consecutive dots first, a real climb after it (a check that stops at the first occurrence)
@@ -144,7 +147,17 @@ def gen_target(rnd, t):
 EXTRA_HEADERS = ["Host: localhost", "Host: 127.0.0.1:7878", "User-Agent: Mozilla/5.0 (X11; Linux x86_64)", "Accept: */*", "Accept-Encoding: gzip, deflate, br",
                  "Accept-Language: de-DE,de;q=0.9", "Connection: keep-alive", "Cookie: a=b; c=d", "X-Forwarded-For: 10.0.0.1", "If-None-Match: \"abc\"",
                  "If-Modified-Since: Sat, 29 Oct 1994 19:43:31 GMT", "Cache-Control: no-cache", "Referer: https://foo.example/page?x=1", "X-Empty:", "X-A: é",
-                 "Upgrade-Insecure-Requests: 1", "If-Range: \"abc\"", "TE: trailers", "X-Range: bytes=0-0", "X-Origin: https://evil.example"]
+                 "Upgrade-Insecure-Requests: 1", "If-Range: \"abc\"", "TE: trailers", "X-Range: bytes=0-0", "X-Origin: https://evil.example",
+                 # standard request headers that ask the server for a special treatment it does not give (each is a place where handling might be added)
+                 "Expect: 100-continue", "expect: 100-Continue", "Expect: 100-continue", "Transfer-Encoding: chunked", "Connection: close", "Connection: Upgrade",
+                 "Upgrade: websocket", "Upgrade: h2c", "HTTP2-Settings: AAMAAABkAAQAAP__", "Trailer: X-Sum", "Max-Forwards: 0", "Pragma: no-cache",
+                 "Authorization: Basic dXNlcjpwYXNz", "Proxy-Authorization: Basic eDp5", "Proxy-Connection: keep-alive", "Via: 1.1 proxy.example", "Forwarded: for=192.0.2.1;proto=https",
+                 "X-Forwarded-Proto: https", "X-Forwarded-Host: evil.example", "Accept-Charset: utf-8", "DNT: 1", "Sec-Fetch-Mode: cors", "Sec-Fetch-Site: cross-site",
+                 "Sec-Fetch-Dest: document", "Sec-GPC: 1", "X-HTTP-Method-Override: DELETE", "X-Method-Override: PUT", "Content-Encoding: gzip", "If-Match: *",
+                 "If-None-Match: *", "If-Unmodified-Since: Sat, 29 Oct 1994 19:43:31 GMT", "Date: Sat, 29 Oct 1994 19:43:31 GMT", "Keep-Alive: timeout=5, max=100",
+                 "Early-Data: 1", "Prefer: respond-async, wait=10", "Priority: u=1, i", "Save-Data: on", "Sec-CH-UA-Platform: \"Linux\"", "Accept: text/html;q=0.9, */*;q=0.1",
+                 "Accept: application/json", "Accept-Encoding: identity;q=0", "Want-Digest: sha-256", "Content-MD5: Q2hlY2sgSW50ZWdyaXR5IQ==", "X-Requested-With: XMLHttpRequest",
+                 "Service-Worker: script", "Purpose: prefetch", "X-Real-IP: 203.0.113.7", "Host: evil.example", "Host:", "Content-Type: text/plain", "Content-Length: 0"]
 
 
 VERSIONS = ["HTTP/1.0", "HTTP/1.0", "HTTP/0.9", "HTTP/2.0", "http/1.1", "Http/1.0", "HTTP/1.1"]
